@@ -1731,7 +1731,7 @@ impl<'a, 'input> DoubleEndedIterator for NamespaceIter<'a, 'input> {
     #[inline]
     fn next_back(&mut self) -> Option<Self::Item> {
         self.namespaces
-            .next()
+            .next_back()
             .map(|idx| self.doc.namespaces.get(*idx))
     }
 }
